@@ -23,7 +23,7 @@ RULE = (
     "case = (configuration: 1-3 parameters, 1-4 cheap samplers with batch sizes 1-2 incl. a deduplicating sampler on a tiny "
     "grid, ensemble 1-2, Minkowski loss, 1-4 batches quick / 1-6 thorough; scheduler round-robin or RL; saving folder or not; "
     "n_jobs 1 or 2; target model / loss / sampler). A fault-free twin is run first and counts the invocations of the target; "
-    "then for EVERY invocation index k a fresh calibrator is run with an exception injected at the k-th invocation (model under "
+    "then for EVERY invocation index k a fresh calibrator is run with an exception (an Exception subclass, or in a quarter of the n_jobs=1 cases a KeyboardInterrupt subclass) injected at the k-th invocation (model under "
     "n_jobs=2: keyed on the seed the twin used for invocation k). Oracle per fault: calibrate() raises the injected exception; "
     "counters and history equal the twin truncated to the batches completed before the fault and pass the C02 alignment "
     "oracle; no thread that was started by the calibration and has a black_it frame on its stack is alive; a following "
@@ -35,7 +35,7 @@ ASSUMPTIONS = [
     "joblib/loky service threads are reported, not judged (no black_it frame on their stack)",
     "RL scheduler with a saving folder cannot run at all (known finding rl-scheduler-not-checkpointable under C04): that combination is counted, not enumerated",
 ]
-REQUIRED_COUNTERS = {"faults_injected": 250, "faults_model": 80, "faults_loss": 40, "faults_sampler": 40, "faults_rl": 60, "faults_njobs2": 20,
+REQUIRED_COUNTERS = {"faults_not_exception_subclass": 30, "faults_injected": 250, "faults_model": 80, "faults_loss": 40, "faults_sampler": 40, "faults_rl": 60, "faults_njobs2": 20,
                      "faults_with_folder": 60, "reuse_ok": 200, "child_process_exits": 2}
 SHARDS = {"quick": 16, "thorough": 16}
 SHARD_WATCHDOG = {"quick": 1500, "thorough": 10800}
@@ -139,6 +139,8 @@ def run_enum(desc, ctx, out):
     n_jobs = 2 if i % 5 == 4 else 1
     target = ["model", "loss", "sampler"][(i // 3 + i) % 3]
     nb = int(rng.integers(1, 5 if desc["tier"] == "quick" else 7))
+    interrupt = n_jobs == 1 and i % 4 == 3   # the fault is a KeyboardInterrupt-like BaseException (Ctrl-C during a simulation)
+    Fault = M.InjectedInterrupt if interrupt else M.InjectedFault
     D, P = cfg["D"], cfg["P"]
     L = len(cfg["lineup"]) + (1 if rl and not any(d["kind"] == "Halton" for d in cfg["lineup"]) else 0)
     wit = {"config": cfg, "batches": nb, "target": target, "n_jobs": n_jobs, "folder": use_folder}
@@ -190,9 +192,9 @@ def run_enum(desc, ctx, out):
         loss = U.FailingMinkowski(None)
         ctxs = []
         if target == "model":
-            model = M.FailAtCall(D, k) if n_jobs == 1 else M.FailAtSeed(D, seeds[k])
+            model = M.FailAtCall(D, k, Fault) if n_jobs == 1 else M.FailAtSeed(D, seeds[k])
         elif target == "loss":
-            loss = U.FailingMinkowski(k)
+            loss = U.FailingMinkowski(k, interrupt=interrupt)
         cal = build(cfg, folder, n_jobs, model=model, loss=loss)
         pristine = U.FailingMinkowski(None)
         before = {t.ident for t in threading.enumerate()}
@@ -202,7 +204,7 @@ def run_enum(desc, ctx, out):
             j = state["n"]
             state["n"] += 1
             if j == k:
-                raise M.InjectedFault(f"sample_batch call {j}")
+                raise Fault(f"sample_batch call {j}")
 
         raised = None
         mon = CM.RunMonitor(cal, snapshots=False)
@@ -218,7 +220,7 @@ def run_enum(desc, ctx, out):
                         cal.calibrate(nb)
                 else:
                     cal.calibrate(nb)
-        except M.InjectedFault as e:
+        except (M.InjectedFault, M.InjectedInterrupt) as e:
             raised = e
         except G.Timeout:
             release(cal)
@@ -235,13 +237,15 @@ def run_enum(desc, ctx, out):
             cnt("faults_njobs2")
         if use_folder:
             cnt("faults_with_folder")
+        if interrupt:
+            cnt("faults_not_exception_subclass")
         out["evals"] += 1
         if b >= 1:
             out["nontrivial"].append(jhash([cfg, target, k, n_jobs, use_folder]))
         bad = []
         if raised is None:
             bad.append(f"fault at {target} invocation {k} (batch {b}) was swallowed: calibrate() returned normally")
-        elif not (isinstance(raised, M.InjectedFault) or (n_jobs == 2 and "InjectedFault" in type(raised).__name__)):
+        elif not (isinstance(raised, (M.InjectedFault, M.InjectedInterrupt)) or (n_jobs == 2 and "InjectedFault" in type(raised).__name__)):
             bad.append(f"fault at {target} invocation {k}: calibrate() raised {type(raised).__name__}: {str(raised)[:120]} instead of the injected exception")
         # threads
         judged, others = new_threads(before)
